@@ -16,6 +16,9 @@ CHECKS = {
  'C03': ('gradients', 'seeded non-recursive grammars (natural weights) and recursive grammars on the dyadic grid -> backward through sum_product for Real and Log, 3 methods, cotangents on the start tensor -> TLC judge (Trace_Grad): formal derivative of the sum-product polynomial by dual numbers in Semantics.tla (exact for Real, exact rational w dZ/dw / Z for Log), enclosure of the derivative of the TLC-proved least fixed point for recursive grammars',
          'Every entry of every factor gradient of 120 (quick) / 1500 (thorough) non-recursive grammars (shared factors, zero weights, factors that cannot reach the start, absent gradients) is compared with the exact derivative; for 40 / 400 certified recursive grammars with an enclosure of width 8/1024 obtained by Kleene iteration of the dual system with directed rounding and a post-fixed-point test.',
          'Trusted: TLC, Semantics.tla dual carriers, projection of gradients (exact integers / scaled by 1e4 / grid units). Recursive Log gradients and derivatives at infinite weights are outside; requires_grad_ is set after factor construction as bin/sum_product.py does.', 'DESIGN.md#c03'),
+ 'C04': ('viterbi', 'seeded grammars with integer log-weights (recursive with weights <= 0, non-recursive any sign; edgeless nodes, all-external rules, nullary rules, size-1 domains, ties) x every start assignment -> fggs.viterbi, derive(), Viterbi sum_product -> TLC judge (Trace_Viterbi): well-formed derivation, values in domains, externals agree with the parent, total log-weight = least fixed point on max-plus (Kleene to stabilisation) = Viterbi sum_product = weight of the derived graph and assignment',
+         'All start assignments of 260 (quick) / 4000 (thorough) grammars; the returned FGGDerivation is serialised through its public fields and judged structurally and by weight against the max-plus least fixed point computed by the specification; any maximiser is accepted.',
+         'Trusted: TLC, Semantics.tla (max-plus carrier), Derive.tla well-formedness, the serialisation of the derivation. Start assignments without a finite attained maximum carry no verdict. Recursive rules applicable at log-weight 0 that tie with the best derivation are a recorded finding (RecursionError).', 'DESIGN.md#c04'),
  'C05': ('factorize', 'seeded grammars + label-collision grammars + min_fill-suboptimal witnesses -> factorize_rule/hrg/fgg x 3 methods on real rules -> TLC judge (Trace_Factorize): fresh-nonterminal discipline, inlining up to isomorphism, width clauses with TLC treewidth DP; sum_products of the factorized FGG judged by Trace_SumProduct',
          'Every rule of 80+ (quick) / 770+ (thorough) seeded grammars (isolated nodes, several components, nullary/repeated-attachment edges, externals anywhere, up to 5 nodes) through all three entry points and methods; TLC inlines the fresh nonterminals and searches for an isomorphism with the original rule (exhaustive up to 6 nodes), checks no rule got wider and that exact methods reach treewidth+1 (treewidth by subset DP, witnesses of 7-8 nodes where min_fill is sub-optimal); the factorized FGG has the same sum-product (exact, nat carrier).',
          'Trusted: TLC, Factorize.tla + TreeDec.tla + Semantics.tla, the projection of rules (node ids to integers). Beyond 6 nodes only the identity-on-ids isomorphism is tried (uncertified otherwise, never an alarm).', 'DESIGN.md#c05'),
